@@ -39,6 +39,7 @@ type FuncContract struct {
 	Mode      string // "int" (default) or "bv"
 	Requires  []*Clause
 	Ensures   []*Clause
+	RetAsserts []*Clause // like ensures, but names denote the current values of locals at the return
 	Modifies  []string // raw designators
 	Loops     map[int]*LoopContract
 	Callsites []*CallsiteClause
@@ -74,6 +75,7 @@ type StructContract struct {
 	GhostFields map[string]string // name -> sort
 	OnRelease   []*OnRelease
 	Stable      map[string][]string // field -> functions allowed to write it
+	ZeroInit    []*Clause           // facts about a freshly allocated (zero) value, `this` = its address
 	File        string
 	Line        int
 }
@@ -378,6 +380,12 @@ func parseStructClause(s *StructContract, file string, ln int, kw, rest string) 
 			return errf("cond <field> guards <mutex>")
 		}
 		s.Conds[fs[0]] = fs[2]
+	case "zeroinit":
+		c, err := mkClause(file, ln, rest)
+		if err != nil {
+			return err
+		}
+		s.ZeroInit = append(s.ZeroInit, c)
 	case "stable":
 		// stable f, g writers F1, F2
 		fs := rest
@@ -455,15 +463,18 @@ func parseFuncClause(f *FuncContract, file string, ln int, kw, rest string) erro
 		f.NoFrame = true
 	case "borrows":
 		f.Borrows = true
-	case "requires", "ensures":
+	case "requires", "ensures", "retassert":
 		c, err := mkClause(file, ln, rest)
 		if err != nil {
 			return err
 		}
-		if kw == "requires" {
+		switch kw {
+		case "requires":
 			f.Requires = append(f.Requires, c)
-		} else {
+		case "ensures":
 			f.Ensures = append(f.Ensures, c)
+		default:
+			f.RetAsserts = append(f.RetAsserts, c)
 		}
 	case "modifies":
 		for _, d := range splitTop(rest) {
